@@ -322,9 +322,17 @@ def run_c09(work, args):
                    deviations=ev_s.get("coverage", {}).get("deviations_from_spec"))
     ev_main["coverage"]["known_scenario_pass"] = summary
     final = 0
+    if rc_s == 1 and known:
+        # keep the reproduction under a stable name; C09-violation.json is reserved for unexpected violations
+        src, dst = os.path.join(vlib.VERIF, "replays", "C09-violation.json"), os.path.join(vlib.VERIF, "replays", "C09-known-%s.json" % SCENARIO_ID)
+        if os.path.exists(src):
+            os.replace(src, dst)
+            text = text.replace(src, dst)
+            summary["replay"] = [dst]
     for line in text.splitlines():
         if line.startswith("VIOLATION") and known:
-            log("KNOWN-FINDING: property=C09 %s: %s" % (SCENARIO_ID, line[len("VIOLATION "):]))
+            log("KNOWN-FINDING: property=C09 scenario=%s (token conversion through a nested state DB after an in-frame token write) %s"
+                % (SCENARIO_ID, line.split(" ")[-1]))
         else:
             log("[scenario %s] %s" % (SCENARIO_ID, line) if not line.startswith("VIOLATION") else line)
     if rc_s == 1 and not known:
